@@ -33,6 +33,8 @@ def judge(ctx, r):
         if a is None:
             ctx.fail(f"{r.desc} step {i}: file on disk unreadable while the context is open", rep, ident="disk unreadable")
             return
+        if s["entries"] is None:
+            continue        # (the object has just LEFT its context: nothing is claimed about what it remembers until it enters again)
         disk_tbl = [(e[0], e[1], e[2], e[3], e[4], e[5], e[6], bytes.fromhex(e[7]).decode("cp1252")) for e in a["live"]]
         mem_tbl = [e for e in s["entries"] if e[1] != 0]
         if disk_tbl != mem_tbl:
@@ -77,7 +79,8 @@ def run(ctx):
     runs = itertools.chain(C.explore(ctx, ctx.n(400, 6000), 12, c03.STYLES_WF, p_invalid=0.15, observe=observe, getall=True),
                            C.explore_equal_sizes(ctx, depth=3, tables=(3,), observe=observe, getall=True),
                            C.explore_boundary_sizes(ctx, observe=observe, getall=True),
-                           C.explore_equal_sizes_big(ctx, observe=observe, getall=True), C.explore_one_object(ctx, depth=5 if ctx.thorough else 4, observe=observe, getall=True))
+                           C.explore_equal_sizes_big(ctx, observe=observe, getall=True), C.explore_one_object(ctx, depth=5 if ctx.thorough else 4, observe=observe, getall=True),
+                           C.explore_two_objects(ctx, ctx.n(150, 3000), observe=observe, getall=True))
     for r in runs:
         ctx.case((r.desc, str(C.jsonable_hist(r.hist))), nontrivial=C.nontrivial_history(r),
                  sample=dict(start=r.desc, ops=[s["op"][0] + ":" + s["real"] for s in r.steps]), tags=C.history_tags(r))
